@@ -1534,6 +1534,9 @@ def check_json_bodies(rep, repo, base):
                           '%s hands %s to the plain JSON renderer, not the endpoint result %s' % (q, short(v, 50), ctx), simple, r)
     if n < 2:
         raise AnalysisError('JSON renderers: the Responses carrying the JSON / JSONP bodies were not found')
+    # how the chunks of a body are combined is defined for the kind of every operand on every path (c17_total.py)
+    from . import c17_total
+    c17_total.check_chunk_kinds(rep, repo, base)
     # the dispatch of the basic renderer hands the endpoint result itself to the renderer it picked
     sr = simple.func('BasicRender._serialize_to_resp')
     fl = Flow(sr)
